@@ -73,3 +73,7 @@ chk('C16', 'model_checking',
     'All histories of InitialMesh.refine up to depth 5 (squares) / 4 (L-shape) quick, 6 / 5 thorough, on the real objects in lock-step with a reference quadtree (tiling in exact arithmetic, 2:1 balance, unique vertices, bookkeeping, gmsh); uniform_refine in three iteration orders as a leaf transition; the complete set of boundary-targeting calls: every boundary piece x every dyadic segment l <= 6 (quick) / 10 (thorough) x both orientations x tuple/list/2x1-array/production-gamma realisations, on fresh meshes and on every shallow BFS state.',
     'Trusted: mc/refquad.py; bisection = IEEE double midpoint; on the pi square given end points within 1e-12*pi of the model points. Observation (not claimed): uniform_refine raises on non-uniform meshes in native set order while leaving a valid mesh.',
     'explicit-state model checking of the implementation (BFS over refinement histories + exhaustive enumeration of targeting calls, lock-step reference model)', 'DESIGN.md 4/C16', 'E1q-quadtree-explorer')
+chk('C09', 'exploration',
+    'Four closed curves x every leaf-set-distinct mesh state of the BFS graph (depth 1 quick / 2 thorough) x every element x 8 residuals (polynomial in t, x_hat; exponential/trigonometric in the embedded coordinates) x orders 1..19: every patch contribution returned by sobolev_space / sobolev_time is compared with an independent integral on the geometric union patch (1e-8 inside the exactness range on straight pieces, 1e-4 at order 17 otherwise, seam and corner patches included), the patch set with the geometric neighbour set, weighted L2 with exact integrals; estimate_sobolev shortcut == direct sums; quarter-turn symmetry of squares and circle permutes the indicators.',
+    'Trusted: mc/oracle_slobo.py (self-tested against exact rational closed forms on every run). x_hat-polynomial residuals are not used on seam patches (discontinuous there). Pool path: C17.',
+    'exhaustive enumeration of BFS mesh states x finite residual/order alphabets against a reference model', 'DESIGN.md 4/C09', 'E1-mesh-explorer')
